@@ -87,13 +87,18 @@ pub fn standard_domain(part: &mut Part, seen: &Seen, kind: K, b: usize, lat_runs
 }
 
 /// FULL bound for a kind: deep for the u8-word kinds, shallow otherwise
-fn full_b(kind: K, deep: usize, shallow: usize) -> usize {
-    if kind.word() == 8 {
+pub fn full_b(kind: K, deep: usize, shallow: usize) -> usize {
+    if kind == K::F8x1 {
+        8
+    } else if kind == K::F8x2 {
+        // every state of Bvf<u8,2> unless the caller asks for less than 12
+        if deep >= 12 { 16 } else { deep }
+    } else if kind.word() == 8 {
         deep
     } else if kind == K::F16x1 || kind == K::D || kind == K::A {
         shallow
     } else {
-        shallow.min(6)
+        shallow.min(8)
     }
 }
 
@@ -175,7 +180,7 @@ pub fn run_c08(cfg: &Cfg) -> (Part, Value, bool) {
     }
     let mut desc = Vec::new();
     for &k in ALL_KINDS {
-        let b = full_b(k, if q { 9 } else { 12 }, if q { 6 } else { 9 });
+        let b = full_b(k, if q { 15 } else { 19 }, if q { 9 } else { 12 });
         let dom = standard_domain(&mut part, &seen, k, b, if q { 2 } else { 3 }, q);
         desc.push(json!({"kind": k.name(), "full_bound": b.min(k.cap().unwrap_or(b)), "subjects": dom.len()}));
         let seen_ref = &seen;
@@ -186,7 +191,7 @@ pub fn run_c08(cfg: &Cfg) -> (Part, Value, bool) {
             let root = x.show();
             let org = Origin::Fixed { root: &root, prefix: &[] };
             p.state(&x.v.raw());
-            let ix: Vec<usize> = if n <= 12 { (0..=n).collect() } else { enumr::boundary_indices(n, w) };
+            let ix: Vec<usize> = if n <= 14 { (0..=n).collect() } else { enumr::boundary_indices(n, w) };
             if x.v.kind() == K::A && x.v.raw().mode == 1 && n <= INLINE_LIMIT {
                 p.count("source_dynamic_small", 1);
             }
@@ -217,7 +222,7 @@ pub fn run_c08(cfg: &Cfg) -> (Part, Value, bool) {
         });
         part = part.merge(p);
     }
-    (part, json!({"domains": desc, "indices": "all (s,e) and split points for len <= 12, boundary index set beyond"}), true)
+    (part, json!({"domains": desc, "indices": "all (s,e) and split points for len <= 14, boundary index set beyond"}), true)
 }
 
 // ------------------------------------------------------------------------------------------------
@@ -251,7 +256,7 @@ pub fn run_c09(cfg: &Cfg) -> (Part, Value, bool) {
         part.require(r);
     }
     // small domains: all values up to B bits, every kind pairing (19 x 19, both orders arise naturally)
-    let b = if q { 4 } else { 6 };
+    let b = if q { 5 } else { 7 };
     let mut small: Vec<Arc<Vec<Vo>>> = Vec::new();
     for &k in ALL_KINDS {
         let provs: &[Prov] = if k == K::D || k == K::A { PROVS_SPARE } else { PROVS_PLAIN };
@@ -270,7 +275,7 @@ pub fn run_c09(cfg: &Cfg) -> (Part, Value, bool) {
             jobs.push((i, j, true));
         }
     }
-    let deep: Vec<(K, K, usize)> = if q { vec![(K::F8x2, K::F8x2, 7), (K::F8x2, K::D, 6)] } else { vec![(K::F8x2, K::F8x2, 9), (K::F8x2, K::F8x3, 9), (K::F8x2, K::D, 9), (K::D, K::A, 9), (K::A, K::F8x3, 9), (K::D, K::D, 9), (K::A, K::A, 9)] };
+    let deep: Vec<(K, K, usize)> = if q { vec![(K::F8x2, K::F8x2, 8), (K::F8x2, K::D, 8), (K::F8x3, K::F16x1, 8), (K::A, K::D, 8)] } else { vec![(K::F8x2, K::F8x2, 11), (K::F8x2, K::F8x3, 11), (K::F8x3, K::F16x1, 11), (K::F8x2, K::D, 10), (K::D, K::A, 10), (K::A, K::F8x3, 10), (K::D, K::D, 10), (K::A, K::A, 10), (K::F16x1, K::F8x2, 10)] };
     let run_pair = |p: &mut Part, x: &Vo, y: &Vo| {
         p.transitions += 1;
         let (mx, my) = (x.v.bits(), y.v.bits());
@@ -406,7 +411,7 @@ pub fn run_c10(cfg: &Cfg) -> (Part, Value, bool) {
     for r in ["equal_pairs_checked", "equal_pairs_different_length", "equal_pairs_different_storage"] {
         part.require(r);
     }
-    let b = if q { 6 } else { 10 };
+    let b = if q { 8 } else { 12 };
     let mut desc = Vec::new();
     for &k in ALL_KINDS {
         let w = k.word();
@@ -527,9 +532,9 @@ pub fn run_c16(cfg: &Cfg) -> (Part, Value, bool) {
     for &k in ALL_KINDS {
         let b = match k {
             K::F8x1 => 8,
-            K::F8x2 => if q { 12 } else { 16 },
-            K::F8x3 => if q { 12 } else { 20 },
-            _ => full_b(k, 0, if q { 8 } else { 12 }),
+            K::F8x2 => 16,
+            K::F8x3 => if q { 16 } else { 22 },
+            _ => full_b(k, 0, if q { 10 } else { 14 }),
         };
         let dom = standard_domain(&mut part, &seen, k, b, 3, false);
         desc.push(json!({"kind": k.name(), "full_bound": b.min(k.cap().unwrap_or(b)), "subjects": dom.len()}));
